@@ -44,6 +44,7 @@ func init() {
 		Assumptions: []string{"buffers handed to Store or returned by Load are never mutated by the harness (copy semantics are not part of the statement)", "a porcupine timeout is inconclusive, never a violation"},
 		MinObs:      map[string]int64{"sequential_cases": 300, "error_cases": 100, "s3_requests_checked": 300, "histories_checked": 100, "history_ops": 3000},
 		Run:         runC18,
+		EvalObs:     []string{"sequential_cases", "error_cases", "s3_requests_checked", "histories_checked"},
 	})
 }
 
